@@ -48,7 +48,11 @@ def expected_lc(m):
             return _safe(R.lc_bicycle, p, Cx, Ox, X, E)
         raise AdapterError(f'economic model {em} not modelled')
 
-    avg_pump = float(V(ec, 'averageannualpumpingcosts'))     # as reported by the run
+    avg_pump = float(V(ec, 'averageannualpumpingcosts'))     # as reported by the run (cogeneration branch, see below)
+    if eu == 2:
+        # direct use: the "other annual cost" of the fixed-charge-rate definition is derived here from the run's own yearly pumping energy and
+        # the electricity rate, not read back from the attribute the formula used (a run that forgets to compute it must show)
+        avg_pump = R.mean(pump)
     if eu == 1:
         out['LCOE'] = lc(C, O, zero, 0.0, A(sp, 'NetkWhProduced'))
     elif eu == 2:
@@ -57,12 +61,13 @@ def expected_lc(m):
         elif cls == 'SurfacePlantHeatPump':
             hp = [x * price_buy / 1e6 for x in A(sp, 'heat_pump_electricity_kwh_used')]
             X = [a + b for a, b in zip(pump, hp)]
-            out['LCOH'] = lc(C, O, X, avg_pump + float(V(ec, 'averageannualheatpumpelectricitycost')),
-                             A(sp, 'HeatkWhProduced')) * R.MMBTU
+            out['LCOH'] = lc(C, O, X, avg_pump + R.mean(hp), A(sp, 'HeatkWhProduced')) * R.MMBTU
         elif cls == 'SurfacePlantDistrictHeating':
             ng = [float(x) for x in np.atleast_1d(V(ec, 'annualngcost'))]
             X = [a + b for a, b in zip(pump, ng)]
             E = [float(V(sp, 'annual_heating_demand')) * 1e6] * L
+            # the peaking-fuel average is taken as reported: the run keeps two versions of the yearly series (with and without the boiler
+            # efficiency) and the fixed-charge-rate branch uses the average of the first, which is not the series it reports
             out['LCOH'] = lc(C, O, X, avg_pump + float(V(ec, 'averageannualngcost')), E) * R.MMBTU
         else:
             out['LCOH'] = lc(C, O, pump, avg_pump, A(sp, 'HeatkWhProduced')) * R.MMBTU
